@@ -94,14 +94,14 @@ theorem interpByName_cons_eq {ext : Ext} {name key : String} {al : Nat} {dt n md
 theorem interpByKey_cons_ne {ext : Ext} {name : String} {k : SVal} {dt n md} {x : SVal} {rest : SEntries}
     (h : ((keyStr k).toOption == some name) = false) :
     interpByKey ext name dt n md (.cons k x rest) = interpByKey ext name dt n md rest := by
-  simp only [interpByKey, h, Bool.false_eq_true, if_false]
+  simp only [interpByKey, keyOf_eq, h, Bool.false_eq_true, if_false]
   cases interpByKey ext name dt n md rest <;> rfl
 
 theorem interpByKey_cons_eq {ext : Ext} {name : String} {k : SVal} {dt n md} {x : SVal} {rest : SEntries}
     {found : List LVal} (h : ((keyStr k).toOption == some name) = true)
     (hf : interpByKey ext name dt n md (.cons k x rest) = .ok found) :
     ∃ lv vs, interpByKey ext name dt n md rest = .ok vs ∧ interpDT ext dt n md x = .ok lv ∧ found = lv :: vs := by
-  simp only [interpByKey, h, if_true] at hf
+  simp only [interpByKey, keyOf_eq, h, if_true] at hf
   obtain ⟨vs, h1, hf⟩ := (bind_ok _ _ _).1 hf
   obtain ⟨lv, h2, hf⟩ := (bind_ok _ _ _).1 hf
   cases hf
